@@ -30,12 +30,12 @@ func genSeq(t *rapid.T, o genOpts) SCase {
 	expAt := map[int]time.Duration{}
 	elapsed := time.Duration(0)
 	var crossed []int
-	exps := []int{ExpNone, Exp1h, Exp100h}
+	exps := []int{ExpNone, Exp1h, Exp100h, ExpNever}
 	if o.bornExpired {
 		exps = []int{ExpNone, Exp1h, ExpPast, ExpPast}
 	}
 	if o.clock {
-		exps = []int{ExpNone, Exp1h, Exp1h, Exp3h, Exp3h, Exp100h}
+		exps = []int{ExpNone, Exp1h, Exp1h, Exp3h, Exp3h, Exp100h, ExpNever}
 		if o.pastExp {
 			exps = append(exps, ExpPast)
 		}
@@ -222,7 +222,9 @@ func TestC06InmemRapid(t *testing.T) {
 	st := vstat.For("C06")
 	rapid.Check(t, func(rt *rapid.T) {
 		c := genSeq(rt, genOpts{clock: true, pastExp: true, park: true, maxLen: vstat.Pick(30, 50)})
+		stop := st.Watch("TestC06InmemRapid", "inmem", c, 40*time.Second)
 		info, v := RunC06Inmem(t, c)
+		stop()
 		st.Report(rt, "TestC06InmemRapid", c, v)
 		recordC06(c, info, "inmem")
 	})
